@@ -114,8 +114,12 @@ def cmd_detect(args):
             r = subprocess.run([os.path.join(VERIF, "check"), p, "--tier", tier], cwd=VERIF, capture_output=True, text=True)
             viol = [l for l in r.stdout.splitlines() if l.startswith("VIOLATION")]
             sig = [l.strip() for l in r.stderr.splitlines() if "violation signature=" in l][:1]
-            out[p] = dict(exit=r.returncode, caught=bool(r.returncode == 1 and viol), tier=tier, signature=(sig[0][:400] if sig else ""), wall_s=round(time.time() - t0, 1))
-            print(sid, p, "CAUGHT" if out[p]["caught"] else f"MISSED (exit {r.returncode})", out[p]["signature"][:200])
+            mm = re.search(r"(\d+) violation\(s\)", r.stderr)
+            nviol = int(mm.group(1)) if mm else 0
+            # (a shard stops at its first violation: the number of violations is the number of
+            # shards, out of 16, that found one - a measure of how much margin the detection has)
+            out[p] = dict(exit=r.returncode, caught=bool(r.returncode == 1 and viol), tier=tier, signature=(sig[0][:400] if sig else ""), wall_s=round(time.time() - t0, 1), shards_with_violation=nviol, seed=os.environ.get("VERIF_SEED", "default"))
+            print(sid, p, (f"CAUGHT[{nviol}]" if out[p]["caught"] else f"MISSED (exit {r.returncode})"), out[p]["signature"][:200])
     finally:
         subprocess.run("git -C /repo checkout -- .", shell=True, check=True)
     m.setdefault("detection", {}).update(out)
